@@ -121,8 +121,8 @@ CLAIMED = {
     "C22": {
         "category": "other",
         "design_ref": "DESIGN.md section 6, C22",
-        "technique": "Kani panic-freedom harnesses (automatic index / overflow / unwrap checks are the obligations) with unconstrained inputs on the real <ElfX86_64 as Arch>::new_relaxation + Relaxation::apply, RelocationKindInfo::write_to_buffer, <SymtabEntry as platform::Symbol>::*, the Divide/shift arms of evaluate_expression (extracted, shared with C16) and, bounded, ArchiveIterator over the object crate's archive parser",
-        "text": "A LIST OF INPUT-FACING FUNCTIONS, not 'any bytes supplied as objects' - the object crate's ELF parser, the winnow parsers, argument parsing and everything over Layout are not covered. CBMC proves no panic (index, slice, arithmetic overflow, unwrap) in: the x86-64 relaxation matcher and rewriter for every section content and every 64-bit relocation offset, inside or outside the section (complete); write_to_buffer for every value and buffer length (complete); linker-script division and shifts for all operand pairs (complete); every query wild makes on an input symbol-table entry, all 24 bytes symbolic, with COMMON symbols decoded exactly (complete); In the thorough tier only (it does not finish within the quick budget and is reported undecided when it does not): archive member iteration over the object crate's parser for single-member archives of at most 72 bytes. Three defects were repaired (relaxation offsets, a truncated archive member shown natively, a COMMON symbol whose aligned size overflows).",
+        "technique": "Kani panic-freedom harnesses (automatic index / overflow / unwrap checks are the obligations) with unconstrained inputs on the real <ElfX86_64 as Arch>::new_relaxation + Relaxation::apply, RelocationKindInfo::write_to_buffer, <SymtabEntry as platform::Symbol>::*, DynamicLayoutStateExt::mark_version_as_needed + elf_writer::copy_symbol_version, the Divide/shift arms of evaluate_expression (extracted, shared with C16) and, bounded, ArchiveIterator over the object crate's archive parser",
+        "text": "A LIST OF INPUT-FACING FUNCTIONS, not 'any bytes supplied as objects' - the object crate's ELF parser, the winnow parsers, argument parsing and everything over Layout are not covered. CBMC proves no panic (index, slice, arithmetic overflow, unwrap) in: the x86-64 relaxation matcher and rewriter for every section content and every 64-bit relocation offset, inside or outside the section (complete); write_to_buffer for every value and buffer length (complete); linker-script division and shifts for all operand pairs (complete); every query wild makes on an input symbol-table entry, all 24 bytes symbolic, with COMMON symbols decoded exactly (complete); the validation / use pair for symbol-version indexes of input shared libraries (mark_version_as_needed rejects every index the library does not define; under that precondition copy_symbol_version's unchecked table index cannot panic; bounded to 4 versions; the glue between the two passes is not proved); In the thorough tier only (it does not finish within the quick budget and is reported undecided when it does not): archive member iteration over the object crate's parser for single-member archives of at most 72 bytes. Three defects were repaired (relaxation offsets, a truncated archive member shown natively, a COMMON symbol whose aligned size overflows).",
         "note": "Assumed: the relocation type reaching new_relaxation is one the x86-64 table accepts (the caller bails out first); archive bytes start with the magic; format/backtrace/cpuid stubs on error paths. AArch64/RISC-V/LoongArch relaxation code is not covered (AArch64's debug_assert! on instruction bytes is by design).",
     },
     "C30": {
